@@ -1,6 +1,8 @@
 import RModel.Driver.State
 import RModel.Impl.Repr
 import RModel.Impl.ArrayC
+import RModel.Impl.ContOps
+import RModel.Driver.Ser
 /-! container-kernel command family: direct calls of the unexported 16-bit kernels (C01, C03, C15, C16 amplifier). -/
 namespace RModel.Driver
 open RModel RModel.Impl
@@ -112,6 +114,31 @@ def stepKern (st : St) (cmd : List String) (got : String) : Option (St × Verdic
               | none => none
             | _, _, _ => none
           let resOk := match resOk with | some m => some m | none => l2Ok
+          -- L2 tie for all kind pairings: for well-formed operands the non-in-place kernels return exactly the
+          -- representation (kind, payload, cached cardinality) computed by the container model `ContOps`
+          let l2Exact : Verdict :=
+            match cb with
+            | some cb' =>
+              if ca.wf && cb'.wf then
+                let exp : Option Cont := match op with
+                  | "and" => some (ca.and2 cb')
+                  | "or" => some (ca.or2 cb')
+                  | "xor" => some (ca.xor2 cb')
+                  | "andNot" => some (ca.andNot2 cb')
+                  | _ => none
+                match exp with
+                | some e =>
+                  let r := renderCont e
+                  if r == resS then none
+                  else some ("L2 container model = Go representation; model: " ++ r.take 300)
+                | none => none
+              else none
+            | none =>
+              if op == "toEfficientContainer" && ca.wf then
+                let r := renderCont ca.toEfficient
+                if r == resS then none else some ("L2 toEfficient model = Go representation; model: " ++ r.take 300)
+              else none
+          let resOk := match resOk with | some m => some m | none => l2Exact
           some (st, match resOk, scOk, aliasOk, bOk, aOk with
             | some m, _, _, _, _ => some m
             | _, some m, _, _, _ => some m
